@@ -161,12 +161,14 @@ pub struct World {
     pub saw: usize,
     x: f64,
     t: u64,
+    /// net number of x1000 regime shifts applied so far (kept within -2..=2 so magnitudes stay bounded)
+    shift_exp: i32,
     rng: Rng,
 }
 
 impl World {
     pub fn from_desc(d: &StreamDesc) -> World {
-        World { regime: d.regime, level: d.level.0, saw: d.saw.max(2), x: d.level.0, t: 0, rng: Rng::new(d.seed) }
+        World { regime: d.regime, level: d.level.0, saw: d.saw.max(2), x: d.level.0, t: 0, shift_exp: 0, rng: Rng::new(d.seed) }
     }
     pub fn random_desc(rng: &mut Rng) -> StreamDesc {
         let regime = *rng.pick(&ALL_REGIMES);
@@ -179,6 +181,24 @@ impl World {
     pub fn shift_level(&mut self, factor: f64) {
         self.level *= factor;
         self.x *= factor;
+    }
+    /// regime shift x1000 (up) or /1000 (down); the direction is flipped when the level has already
+    /// drifted by 1e6 so that a fault storm cannot walk the prices into overflow
+    pub fn regime_shift(&mut self, up: bool) {
+        let up = if self.shift_exp >= 2 {
+            false
+        } else if self.shift_exp <= -2 {
+            true
+        } else {
+            up
+        };
+        if up {
+            self.shift_exp += 1;
+            self.shift_level(1000.0);
+        } else {
+            self.shift_exp -= 1;
+            self.shift_level(0.001);
+        }
     }
     fn price(&mut self) -> f64 {
         let l = self.level;
@@ -369,7 +389,7 @@ pub fn tick(world: &mut World, plan: &FaultPlan, rng: &mut Rng, out: &mut Vec<(I
             }
         }
         Fault::RegimeShift => {
-            world.shift_level(if rng.chance(0.5) { 1000.0 } else { 0.001 });
+            world.regime_shift(rng.chance(0.5));
             out.push((world.clean(), Fault::RegimeShift));
         }
         _ => {
